@@ -285,6 +285,20 @@ func ruleAttrGuard(p *Prog, r *Report, scope []*ssa.Function, what string) {
 				return false
 			}
 			c := cz.of(bo)
+			// attrPrefix != ""
+			if bo.Op == token.EQL || bo.Op == token.NEQ {
+				var other ssa.Value
+				if cz.of(bo.X) == "load(mxj.attrPrefix)" {
+					other = bo.Y
+				} else if cz.of(bo.Y) == "load(mxj.attrPrefix)" {
+					other = bo.X
+				}
+				if other != nil {
+					if sc, isS := constString(other); isS && sc == "" {
+						return (bo.Op == token.NEQ) == ng.Pol
+					}
+				}
+			}
 			isLen := strings.Contains(c, "len(load(mxj.attrPrefix))") || strings.Contains(c, "load(mxj.lenAttrPrefix)")
 			if !isLen {
 				return false
@@ -441,6 +455,14 @@ func (p *Prog) boolImpliesNonEmptyPrefix(fn *ssa.Function, v ssa.Value) bool {
 		return !b
 	}
 	if bo, ok := v.(*ssa.BinOp); ok {
+		if bo.Op == token.NEQ {
+			if sc, isS := constString(bo.Y); isS && sc == "" && cz.of(bo.X) == "load(mxj.attrPrefix)" {
+				return true
+			}
+			if sc, isS := constString(bo.X); isS && sc == "" && cz.of(bo.Y) == "load(mxj.attrPrefix)" {
+				return true
+			}
+		}
 		c := cz.of(bo)
 		if strings.Contains(c, "len(load(mxj.attrPrefix))") || strings.Contains(c, "load(mxj.lenAttrPrefix)") {
 			if k, isK := constInt(bo.Y); isK && k == 0 && (bo.Op == token.GTR || bo.Op == token.NEQ) {
